@@ -110,8 +110,8 @@ contract('parso.parser.BaseParser._pop', params={'self': 'ref:BaseParser'},
 contract('parso.parser.BaseParser.convert_node',
          params={'self': 'ref:BaseParser', 'nonterminal': 'str', 'children': 'list:ref:NodeOrLeaf'}, returns='ref:BaseNode',
          trusted=True, ensures=['result is not None'], modifies=['parent', 'children'], lists=[],
-         note='assumed: builds a node object (dynamic class lookup in node_map); only non-nullness is used; lists=[] is the '
-              'ownership assumption NODE_CTOR (only children lists of already popped subtrees change)')
+         note='dynamic dispatch: the override Parser.convert_node is verified against this postcondition (refines); lists=[] is '
+              'the ownership assumption NODE_CTOR (only children lists of already popped subtrees change)')
 contract('parso.parser.BaseParser.convert_leaf',
          params={'self': 'ref:BaseParser', 'type_': 'ref', 'value': 'str', 'prefix': 'str', 'start_pos': 'pos'},
          returns='ref:Leaf', trusted=True, ensures=LEAF_OF_TOKEN, lists=[],
@@ -267,3 +267,20 @@ contract('parso.parser.BaseParser.parse', params={'self': 'ref:BaseParser', 'tok
          modifies=['stack', 'dfa', 'parent', 'children', 'nodes', '_omit_dedent_list'], lists='*', frame_assumed=NODE_CTOR,
          call_keys={'parso.parser.BaseParser.convert_node': 'parso.parser.BaseParser.convert_node'},
          props=['C02'])
+
+# ---- Parser.convert_node: builds the node for a finished rule (C02: never fails on a non-empty children list of nodes; C01: a
+# suite drops exactly its INDENT / DEDENT leaves, children[1] and children[-1]).  The class comes from the constant table
+# node_map (which class follows the rule name); Function / Lambda constructors are assumed (see contracts/tree_ctor.py).
+contract('parso.python.parser.Parser.convert_node',
+         params={'self': 'ref:Parser', 'nonterminal': 'str', 'children': 'list:ref:NodeOrLeaf'}, returns='ref:BaseNode',
+         requires=['children is not None', 'len(children) >= 1',
+                   'forall(lambda k: implies(0 <= k and k < len(children), children[k] is not None), trigger=lambda k: children[k])',
+                   # grammar: a suite that is not a single simple_stmt is NEWLINE INDENT stmt+ DEDENT
+                   'implies(nonterminal == "suite", len(children) >= 4)'],
+         ensures=['result is not None', 'isinstance(result, tree.BaseNode)',
+                  'implies(nonterminal != "suite", result.children is children)',
+                  'implies(nonterminal == "suite", len(result.children) == len(children) - 2 and result.children[0] is children[0] and '
+                  'forall(lambda k: implies(1 <= k and k < len(result.children), result.children[k] is children[k + 1]), '
+                  'trigger=lambda k: result.children[k]))'],
+         modifies=['parent', 'children', 'type', '_used_names'], lists='*', frame_assumed=NODE_CTOR,
+         refines='parso.parser.BaseParser.convert_node', props=['C02', 'C01'])
